@@ -19,7 +19,7 @@ ENV = dict(os.environ, GOFLAGS="-mod=mod", GOPROXY="off", GOSUMDB="off", GOTOOLC
 def load_mutants():
     spec = importlib.util.spec_from_file_location("mutants", os.path.join(HERE, "mutants.py"))
     m = importlib.util.module_from_spec(spec); spec.loader.exec_module(m)
-    return m.MUTANTS
+    return m.MUTANTS, getattr(m, "BENIGN", [])
 
 def scratch():
     d = tempfile.mkdtemp(prefix="p9pmut-")
@@ -39,8 +39,11 @@ def main():
     results = []
     evdir = tempfile.mkdtemp(prefix="p9pev-")
     items = []
-    for name, prop, edits in load_mutants():
+    muts, benign = load_mutants()
+    for name, prop, edits in muts:
         items.append((name, prop, edits, None))
+    for name, prop, edits in benign:
+        items.append(("BENIGN:" + name, prop, edits, None))
     for f in sorted(glob.glob(os.path.join(HERE, "revert", "*.diff"))):
         meta = json.load(open(os.path.join(HERE, "revert", "props.json")))
         d = os.path.basename(f)[:-5]
@@ -68,9 +71,14 @@ def main():
                 t = subprocess.run(["go", "test", "-vet=off", "-count=1", "-timeout", "90s", "./..."], cwd=d, env=ENV, capture_output=True, text=True)
                 tmsg = " tests=" + ("pass" if t.returncode == 0 else "FAIL")
             rc, out = run_check(prop, d, evdir)
+            first = [l for l in out.splitlines() if "[" + prop + "/" in l][:2]
+            if name.startswith("BENIGN:"):
+                ok = rc == 0
+                if not ok: bad += 1
+                print(("SILENT " if ok else "FALSE-ALARM ") + f"{prop} {name}{tmsg}" + ("" if ok else "\n    " + "\n    ".join(first)))
+                continue
             ok = rc == 1 and ("VIOLATION property=" + prop) in out
             if not ok: bad += 1
-            first = [l for l in out.splitlines() if "[" + prop + "/" in l][:2]
             print(("KILLED " if ok else "MISSED ") + f"{prop} {name}{tmsg}" + ("" if not ok or not verbose else "\n    " + "\n    ".join(first)))
             if not ok and verbose: print(out[-1500:])
         except StopIteration:
